@@ -157,7 +157,10 @@ def hist_to_program(h, K):
 
     def evals():
         ts = sorted(set([-0.25, tmax + 0.25] + knots + [k + 0.125 for k in knots[:-1]] + [tmax * 0.37, tmax]))
-        return [f"eval 0 {fmt(float(t))}" for t in ts]
+        out = [f"eval 0 {fmt(float(t))}" for t in ts]
+        if K == 3:
+            out += [f"arclen 0 {fmt(float(t))}" for t in (tmax * 0.37, tmax, tmax + 0.25)]
+        return out
 
     for st in h:
         op = st[0]
@@ -230,7 +233,10 @@ def random_program(rng, K, g, n_ops):
         for k in knots[1:-1]:
             pts.add(math.nextafter(k, -1e9))
             pts.add(math.nextafter(k, 1e9))
-        return [f"eval {reg} {fmt(float(t))}" for t in sorted(pts)]
+        out = [f"eval {reg} {fmt(float(t))}" for t in sorted(pts)]
+        if K == 3 and g in (0, 1):
+            out += [f"arclen {reg} {fmt(float(t))}" for t in (tmax * rng.random(), tmax, tmax + 0.5)]
+        return out
 
     kind = rng.random()
     if kind < 0.25:
